@@ -434,6 +434,10 @@ type FileCase struct {
 	Algo     string    `json:"algo"`
 	Contents []Content `json:"contents"` // files hashed one after the other with one IFileHash and through FS.FileHash
 	Backend  string    `json:"backend"`  // "os" | "mem"
+	// Spelling: how the path of the file is spelled when it is hashed: "" clean, dot = dir/./f, double = dir//f,
+	// updown = dir/x/../f (x exists), link = dir/lnk/../f where lnk is a symbolic link to a directory elsewhere (OS backend):
+	// the operating system resolves that to the parent of the link's target, where the file is; a decoy stands at dir/f
+	Spelling string `json:"path_spelling,omitempty"`
 }
 
 func backend(name string) (filesystem.FS, string, func()) {
@@ -459,8 +463,36 @@ func checkFileCase(t ev.T, test string, c FileCase) {
 			ev.Fail(t, prop, test, c, "NewFileHash: %v", err)
 		}
 		for i, ct := range c.Contents {
-			p := filepath.Join(dir, fmt.Sprintf("f%d.bin", i))
+			name := fmt.Sprintf("f%d.bin", i)
+			p := filepath.Join(dir, name)
 			data := ct.Bytes()
+			hp := p // the spelling given to the hashing functions
+			sep := string(filepath.Separator)
+			switch c.Spelling {
+			case "dot":
+				hp = dir + sep + "." + sep + name
+			case "double":
+				hp = dir + sep + sep + name
+			case "updown":
+				_ = fs.MkDir(filepath.Join(dir, "x"))
+				hp = dir + sep + "x" + sep + ".." + sep + name
+			case "link":
+				real := filepath.Join(dir, "real")
+				if err := fs.MkDir(filepath.Join(real, "sub")); err != nil {
+					t.Fatalf("HARNESS: %v", err)
+				}
+				if i == 0 {
+					if err := os.Symlink(filepath.Join(real, "sub"), filepath.Join(dir, "lnk")); err != nil {
+						t.Fatalf("HARNESS: %v", err)
+					}
+				}
+				// the decoy: what a purely lexical reading of the path would designate
+				if err := fs.WriteFile(p, append([]byte("decoy"), data...), 0o644); err != nil {
+					t.Fatalf("HARNESS: %v", err)
+				}
+				p = filepath.Join(real, name)
+				hp = dir + sep + "lnk" + sep + ".." + sep + name
+			}
 			// written through the library's own afero-compatible API; empty contents need Touch
 			if len(data) == 0 {
 				if err := fs.Touch(p); err != nil {
@@ -470,15 +502,15 @@ func checkFileCase(t ev.T, test string, c FileCase) {
 				t.Fatalf("HARNESS: write: %v", err)
 			}
 			want := refDigest(c.Algo, data)
-			got, err := fh.CalculateFile(fs, p)
+			got, err := fh.CalculateFile(fs, hp)
 			if err != nil || got != want {
 				ev.Fail(t, prop, test, c, "IFileHash.CalculateFile(file %d, %d bytes) = %q, %v; reference digest of the bytes %s", i, len(data), got, err, want)
 			}
-			got, err = fs.FileHash(c.Algo, p)
+			got, err = fs.FileHash(c.Algo, hp)
 			if err != nil || got != want {
 				ev.Fail(t, prop, test, c, "FS.FileHash(file %d, %d bytes) = %q, %v; reference digest of the bytes %s", i, len(data), got, err, want)
 			}
-			got, err = fh.CalculateFileWithContext(context.Background(), fs, p)
+			got, err = fh.CalculateFileWithContext(context.Background(), fs, hp)
 			if err != nil || got != want {
 				ev.Fail(t, prop, test, c, "CalculateFileWithContext(file %d) = %q, %v; reference %s", i, got, err, want)
 			}
@@ -494,7 +526,7 @@ func checkFileCase(t ev.T, test string, c FileCase) {
 			// a cancelled calculation in between must not influence the next file
 			cctx, cancel := context.WithCancel(context.Background())
 			cancel()
-			if _, err = fh.CalculateFileWithContext(cctx, fs, p); err == nil {
+			if _, err = fh.CalculateFileWithContext(cctx, fs, hp); err == nil {
 				ev.Fail(t, prop, test, c, "CalculateFileWithContext with a cancelled context returned nil")
 			}
 			rb, err := fs.ReadFile(p)
@@ -519,6 +551,10 @@ func TestFileHash(t *testing.T) {
 		n := rapid.IntRange(1, 4).Draw(rt, "files")
 		for i := 0; i < n; i++ {
 			c.Contents = append(c.Contents, genContent(rt, fmt.Sprintf("c%d", i)))
+		}
+		c.Spelling = rapid.SampledFrom([]string{"", "", "dot", "double", "updown", "link"}).Draw(rt, "spelling")
+		if c.Spelling == "link" && c.Backend != "os" {
+			c.Spelling = "updown"
 		}
 		key, _ := json.Marshal(c)
 		ev.Case(string(key), len(c.Contents) > 1, "file/"+c.Backend+"/"+c.Algo, c)
